@@ -117,7 +117,13 @@ def mutual_cases(rng, n):
 def streams(tier, seed):
     rng = lib.Rng(f"C03-{seed}")
     n = 120 if tier == "quick" else 2500
-    s1 = mk_stream(lib.load_corpus(PROP, "hier-rename") + gen_cases(rng, n, 3))
+    # nested repetitions whose iterators bear the same name (a bound name shadows; it is not a free symbol of the value), the
+    # inner routine's parameters renamed onto names of the outer scope
+    from props import c07
+    nested = [{"routine": c["routine"], "path": ["inner"] if c["routine"]["children"][0]["name"] == "inner" else ["leaf"],
+               "pi": ({"N": "K", "R": "N"} if c["routine"]["children"][0]["name"] == "inner" else {"N": "K"})}
+              for c in c07.nested_iterator_cases()]
+    s1 = mk_stream(lib.load_corpus(PROP, "hier-rename") + nested + gen_cases(rng, n, 3))
     s2 = dict(c05.mk_stream(lib.load_corpus(PROP, "eval") + mutual_cases(rng, 40 if tier == "quick" else 600)), name="eval-mutual")
     return [s1, s2]
 
